@@ -26,8 +26,13 @@ JOBS = [
   Job("c07.wake_many.bounded", TU, "h_wake_many", kind="bounded",
       replace_calls=["myth_sleep_queue_deq:verif_deq", "myth_queue_push:verif_push"],
       cbmc=["--unwind", "8", "--unwinding-assertions"], defines=["-DWM_N=4", "-DWM_K=2"],
-      fuc=["myth_wake_many_from_queue"], timeout=300,
+      fuc=["myth_wake_many_from_queue"], timeout=300, tiers=("quick",),
       note="bounded: n <= 4 sleepers, at most 2 empty polls of the sleep queue (late sleepers)"),
+  Job("c07.wake_many.n12.bounded", TU, "h_wake_many", kind="bounded",
+      replace_calls=["myth_sleep_queue_deq:verif_deq", "myth_queue_push:verif_push"],
+      cbmc=["--unwind", "20", "--unwinding-assertions"], defines=["-DWM_N=12", "-DWM_K=4"],
+      fuc=["myth_wake_many_from_queue"], timeout=1800, mem_gb=12, tiers=("thorough",),
+      note="bounded: n <= 12 sleepers, at most 4 empty polls of the sleep queue (late sleepers)"),
 ]
 # the public API functions are one-line forwarders to the bodies under contract: checked mechanically (DESIGN §3.5b)
 from units.common_forward import forward_job
